@@ -19,7 +19,6 @@ import itertools
 import os
 import re
 import time
-import urllib.parse
 import warnings
 
 from ..common import HarnessError, canon, load_impl
@@ -148,6 +147,26 @@ def n_wrong(ptype, nullable=False, negative_huge=False):
     """Closed form of len(wrong_values(...)): nine types minus the accepted one, minus null when nullable, plus the
     self-containing array when arrays are not accepted, plus inf, NaN and 10**400 (and -10**400) for numbers."""
     return 8 - (1 if nullable else 0) + (0 if ptype == 'array' else 1) + ((4 if negative_huge else 3) if ptype == 'number' else 0)
+
+
+def impl_guard(default=None):
+    """Decorator for a per-case check: an exception raised while running the implementation or while post-processing
+    what it returned (decoding, compiling, sorting, indexing its output) is a property VIOLATION of that case - malformed
+    output - never a harness exception. HarnessError (the harness's own consistency checks) passes through."""
+    def wrap(check):
+        def guarded(case, acc, *args, **kw):
+            try:
+                return check(case, acc, *args, **kw)
+            except HarnessError:
+                raise
+            except Exception as exc:  # pylint: disable=broad-exception-caught
+                acc.violation(case, 'a well-formed result', f'{type(exc).__name__}: {exc}',
+                              'an exception escaped the implementation, or its output is malformed and could not be processed')
+                return default
+        guarded.__name__ = check.__name__
+        guarded.__doc__ = check.__doc__
+        return guarded
+    return wrap
 
 
 def self_array_intact():
@@ -736,6 +755,7 @@ def sref_value(a):
     return ref_value(a, None)
 
 
+@impl_guard()
 def check_strings(case, acc):
     name = case['fn']
     args = [tuple(a) for a in case['args']]
@@ -811,6 +831,7 @@ def impl_call(bs, name, args):
     return bs.evaluate_expression(expr, {'globals': glob}, None, False)
 
 
+@impl_guard(0)
 def check_regex(case, acc, targets=None):
     if 'fn' in case:
         return check_bad_call(case, acc)
@@ -862,6 +883,7 @@ def bad_calls(name):
     return [{'fn': name, 'wrong': t} for t, _ in wrong_values('string')] + [{'fn': name, 'nargs': 0}, {'fn': name, 'nargs': 2}]
 
 
+@impl_guard()
 def check_bad_call(case, acc):
     bs = load_impl()
     args = [ref_value(dict(wrong_values('string'))[case['wrong']], {'bb': [], 'oo': {}})] if 'wrong' in case else ['a'] * case['nargs']
@@ -886,6 +908,28 @@ URL_EXTRA = ['%41', '%zz', 'a%2', '%%%', 'a b', 'ééé']
 HEX = frozenset('0123456789ABCDEFabcdef')
 
 
+def percent_decode(text):
+    """Strict percent-decoding: every '%' must be followed by two hex digits, everything else must be ASCII, and the
+    decoded bytes must be valid UTF-8. Raises ValueError otherwise."""
+    out = bytearray()
+    i = 0
+    while i < len(text):
+        ch = text[i]
+        if ch == '%':
+            pair = text[i + 1:i + 3]
+            if len(pair) != 2 or pair[0] not in HEX or pair[1] not in HEX:
+                raise ValueError(f"'%' at offset {i} is not followed by two hex digits")
+            out.append(int(pair, 16))
+            i += 3
+        else:
+            if ord(ch) > 127:
+                raise ValueError(f'non-ASCII character at offset {i}')
+            out.append(ord(ch))
+            i += 1
+    return bytes(out).decode('utf-8', errors='strict')
+
+
+@impl_guard()
 def check_url(case, acc):
     if 'fn' in case and 's' not in case:
         return check_bad_call(case, acc)
@@ -915,7 +959,13 @@ def check_url(case, acc):
             i += 1
         if not ok:
             acc.violation(c2, 'only unreserved/allowed characters and %XX escapes', enc, f'{name} output contains a character that must be escaped (at offset {i})')
-        back = urllib.parse.unquote(enc, encoding='utf-8', errors='strict') if ok else None
+        back = None
+        if ok:
+            try:
+                back = percent_decode(enc)
+            except ValueError as exc:       # UnicodeDecodeError is a ValueError
+                acc.violation(c2, s, enc, f'the output of {name} cannot be percent-decoded: {exc}')
+                ok = False
         if ok and back != s:
             acc.violation(c2, s, back, f'percent-decoding the output of {name} does not give the input back')
         obs.append(enc == s)
@@ -1025,6 +1075,7 @@ class FreshRuntime:
 _FRT = []
 
 
+@impl_guard()
 def check_fresh(case, acc):  # pylint: disable=too-many-locals,too-many-branches,too-many-statements
     import copy  # pylint: disable=import-outside-toplevel
     if not _FRT:
@@ -1047,7 +1098,7 @@ def check_fresh(case, acc):  # pylint: disable=too-many-locals,too-many-branches
     if name in FRESH_REF:
         rargs = build_args(spec)
         out = rl.call(name, rargs)
-        got = sorted(r1) if name == 'objectKeys' and isinstance(r1, list) else r1
+        got = sorted(r1) if name == 'objectKeys' and isinstance(r1, list) and all(isinstance(k, str) for k in r1) else r1
         if out.value is not UNSPECIFIED and canon({'args': args, 'r': got}) != canon({'args': rargs, 'r': out.value}):
             acc.violation(case, out.value, r1, 'first result differs from the reference (values, or fresh vs shared with the arguments)')
             return None
@@ -1192,6 +1243,7 @@ class CallbackRuntime:
 _CRT = []
 
 
+@impl_guard()
 def check_callbacks(case, acc):
     if not _CRT:
         _CRT.append(CallbackRuntime())
@@ -1257,7 +1309,7 @@ def fam_callbacks(arg):
                     acc.cases += 1
                     res = check_callbacks({'kind': 'find', 'fn': name, 'idx': list(idx), 'start': start}, acc)
                     acc.outcome((name, res))
-                    if res[1] is not UNSPECIFIED and res[1] != -1:
+                    if res is not None and res[1] is not UNSPECIFIED and res[1] != -1:
                         acc.nontrivial += 1
         if tuples:
             acc.sample({'find_in': [CB_FIND_ELEMENTS[i][0] for i in tuples[-1]], 'predicate': 'itself(vv) returns vv'})
@@ -1302,6 +1354,7 @@ def regex_ctx_targets(s):
     return out
 
 
+@impl_guard()
 def check_regexctx(case, acc):
     bs = load_impl()
     from bare_script.library import SCRIPT_FUNCTIONS as F  # pylint: disable=import-outside-toplevel,import-error
@@ -1336,7 +1389,8 @@ def fam_regexctx(arg):
     acc = Acc('regexctx')
     for i in arg:
         s = REGEX_CONTEXT[i]
-        acc.cases += check_regexctx({'s': s}, acc)
+        check_regexctx({'s': s}, acc)
+        acc.cases += len(regex_ctx_targets(s)) + 1
         unescaped = None
         try:
             with warnings.catch_warnings():
@@ -1377,6 +1431,7 @@ def lastfit_array_count(maxlen):
     return sum(3 ** n * 3 * (n + 1) * 2 for n in range(1, maxlen + 1))
 
 
+@impl_guard()
 def check_lastfit(case, acc):
     srt = sruntime()
     name = case['fn']
